@@ -1,5 +1,6 @@
 """Reference for ZConfig.url and the URL-handling parts of the loaders and the
 schema parser (statement of C18).  PARSED, NEVER EXECUTED."""
+import http.client
 import urllib.parse
 import urllib.request
 import xml.sax
@@ -51,12 +52,17 @@ def openResource(self, url):
         self._raise_open_error(url, str(e))
     except ValueError as e:
         self._raise_open_error(url, str(e))
+    except http.client.HTTPException as e:
+        self._raise_open_error(url, str(e))
     try:
         data = file.read()
     finally:
         file.close()
     if isinstance(data, bytes):
-        data = data.decode('utf-8')
+        try:
+            data = data.decode('utf-8')
+        except UnicodeDecodeError as e:
+            self._raise_open_error(url, str(e))
     file = StringIO(data)
     return self.createResource(file, url)
 
